@@ -20,7 +20,7 @@ pub fn jobs(ctx: &Ctx) -> Vec<Job> {
     let caps = &ctx.caps;
     let mut jobs = Vec::new();
     let mut k = 0usize;
-    let per_cell = ctx.tier.pick(4, ctx.scale(500));
+    let per_cell = ctx.tier.pick(6, ctx.scale(800));
     let mut rng = Rng::new(ctx.seed ^ 0xc02);
     for v in 1..=40usize {
         for level in 0..4usize {
